@@ -6,27 +6,27 @@ namespace Pegnet
 
 def allDigits (s : String) : Bool := s.toList.all Char.isDigit
 
-/-- `strconv.Atoi` on a string of decimal digits, error ignored: "" ↦ 0, out of range ↦ MaxInt64. -/
-def atoiClamped (s : String) : Nat :=
-  if s.isEmpty then 0 else
-  let n := s.toNat?.getD 0
-  if n > maxInt64 then maxInt64 else n
+/-- numeric core of `cmd.FactoidToFactoshi` once the string has been split into a whole part
+    (value `whole`; `strconv.ParseUint` fails above 2^64-1) and `fracLen` fraction digits of value
+    `frac`: `none` = the Go function returns an error. -/
+def amountCore (whole frac fracLen : Nat) : Option Nat :=
+  if whole > maxUint64 then none
+  else if whole > maxUint64 / 100000000 then none
+  else if fracLen > 8 then none
+  else
+    let total := whole * 100000000
+    let f := frac * 100000000 / (10 ^ fracLen)
+    if total + f > maxUint64 then none else some (total + f)
 
-/-- `cmd.FactoidToFactoshi`: `none` = error returned. The result is the uint64 the Go code returns,
-    including its silent wrap-around. -/
+/-- `cmd.FactoidToFactoshi`: `none` = error returned. -/
 def factoidToFactoshi (s : String) : Option Nat :=
   let parts := s.splitOn "."
   match parts with
   | [w] =>
-    if allDigits w then some ((atoiClamped w * 100000000) % 18446744073709551616) else none
+    if allDigits w then amountCore (w.toNat?.getD 0) 0 0 else none
   | [w, f] =>
     if !(allDigits w) || f.isEmpty || !(allDigits f) then none
-    else if f.length > 8 then none
-    else
-      let whole := (atoiClamped w * 100000000) % 18446744073709551616
-      let part := f.toNat?.getD 0
-      let frac := part * 100000000 / (10 ^ f.length)
-      some ((whole + frac) % 18446744073709551616)
+    else amountCore (w.toNat?.getD 0) (f.toNat?.getD 0) f.length
   | _ => none
 
 namespace Codec
